@@ -4,6 +4,8 @@ package corerad
 
 import (
 	"encoding/json"
+	"net/netip"
+	"syscall"
 	"fmt"
 	"os"
 	"strconv"
@@ -30,11 +32,13 @@ var c06Gaps = []time.Duration{0, 100 * time.Millisecond, time.Second, 2900 * tim
 type c06Event struct {
 	Multicast bool          `json:"multicast_trigger"`
 	Reinit    bool          `json:"link_change_reinit,omitempty"`
+	WriteErr  bool          `json:"next_multicast_write_fails,omitempty"`
 	Gap       time.Duration `json:"gap"`
 }
 
 type c06Case struct {
-	Events  []c06Event `json:"events"`
+	Interval time.Duration `json:"interval,omitempty"` // min=max interval (default 4s)
+	Events   []c06Event    `json:"events"`
 	Choices []int      `json:"choices,omitempty"`
 }
 
@@ -45,7 +49,24 @@ func c06Scenario(c c06Case, keep **advWorld) *vsched.Scenario {
 		Name:    "c06",
 		Horizon: 10 * time.Minute,
 		Setup: func(x *vsched.Exec) {
-			a := newAdvWorld(staticCfg("eth0", c06Interval, c06Interval), true, true)
+			iv := c06Interval
+			if c.Interval != 0 {
+				iv = c.Interval
+			}
+			a := newAdvWorld(staticCfg("eth0", iv, iv), true, true)
+			failNext := false
+			nwrites := map[int]int{}
+			a.writeFault = func(fc *fconn, dst netip.Addr) error {
+				nwrites[fc.id]++
+				// Only a scheduled multicast RA fails: how a failing *initial* RA of a
+				// connection is classified is not fixed by the statements.
+				if failNext && dst.IsMulticast() && nwrites[fc.id] > 1 {
+					failNext = false
+					vsched.Obs("write-fault", "ENOBUFS")
+					return os.NewSyscallError("sendmsg", syscall.ENOBUFS)
+				}
+				return nil
+			}
 			*keep = a
 			x.Spawn("advertiser", a.run)
 			x.Spawn("driver", func() {
@@ -66,6 +87,8 @@ func c06Scenario(c c06Case, keep **advWorld) *vsched.Scenario {
 					}
 					at += e.Gap
 					switch {
+					case e.WriteErr:
+						failNext = true // the next scheduled multicast transmission fails transiently
 					case e.Reinit:
 						vsched.Obs("link-change", "")
 						vsched.Send("harness:link-change", a.watchC, netstate.LinkDown)
@@ -124,7 +147,7 @@ func c06Check(c c06Case, x *vsched.Exec, a *advWorld) (out [][2]string) {
 	}
 	// Multicast transmissions before the stop (the single final RA is exempt), per generation.
 	for _, w := range a.Writes() {
-		if isAllNodes(w.Dst) && w.T <= stop && !(w.RA != nil && w.RA.RouterLifetime == 0 && w.T == stop) && w.Conn < len(gens) {
+		if w.Err == nil && isAllNodes(w.Dst) && w.T <= stop && !(w.RA != nil && w.RA.RouterLifetime == 0 && w.T == stop) && w.Conn < len(gens) {
 			gens[w.Conn].mc = append(gens[w.Conn].mc, w.T)
 		}
 	}
@@ -153,14 +176,18 @@ func c06Check(c c06Case, x *vsched.Exec, a *advWorld) (out [][2]string) {
 	}
 	var trigs []trig
 	for _, g := range gens {
-		for t := g.open; t+3*time.Second < g.end; t += c06Interval {
+		iv := c06Interval
+		if c.Interval != 0 {
+			iv = c.Interval
+		}
+		for t := g.open; t+3*time.Second < g.end; t += iv {
 			trigs = append(trigs, trig{t, "periodic"})
 		}
 	}
 	var at time.Duration
 	for _, e := range c.Events {
 		at += e.Gap
-		if e.Multicast && !e.Reinit {
+		if e.Multicast && !e.Reinit && !e.WriteErr {
 			trigs = append(trigs, trig{at, "solicitation-from-::"})
 		}
 	}
@@ -189,7 +216,7 @@ func c06Check(c c06Case, x *vsched.Exec, a *advWorld) (out [][2]string) {
 	// Unicast solicitations are answered (C07 has the precise bound).
 	nu := 0
 	for _, e := range c.Events {
-		if !e.Multicast {
+		if !e.Multicast && !e.Reinit && !e.WriteErr {
 			nu++
 		}
 	}
@@ -221,7 +248,13 @@ func (c c06Case) String() string {
 		if e.Reinit {
 			k = "R"
 		}
+		if e.WriteErr {
+			k = "W"
+		}
 		s = append(s, fmt.Sprintf("%s+%s", k, e.Gap))
+	}
+	if c.Interval != 0 {
+		return "iv=" + c.Interval.String() + " " + strings.Join(s, " ")
 	}
 	return strings.Join(s, " ")
 }
@@ -229,7 +262,7 @@ func (c c06Case) String() string {
 func TestVerifC06(t *testing.T) {
 	r := ev.Begin("C06", "histories")
 	defer r.End(t)
-	r.Rule = "histories = all sequences of <=K events, event = (solicitation from :: | unicast solicitation) x gap to the previous event in {0, 100ms, 1s, 2.9s, 3s-1ns, 3s, 3.1s, 6s}, or a link-state change (tear-down and re-initialisation) x gap {100ms, 1s, 3.1s, 6s}, injected into the real Advertiser (min=max=4s, so periodic ticks at 0,4,8,... interleave) under the virtual clock in the canonical schedule; oracle on virtual WriteTo timestamps to ff02::1, per connection generation from its initial RA: consecutive >= 3s apart, every trigger (tick or :: solicitation) served within 3s, unicast answers conserved; states = histories executed, transitions = scheduler steps; non-trivial = history has >=1 event; distinct = distinct history"
+	r.Rule = "histories = all sequences of <=K events, event = (solicitation from :: | unicast solicitation) x gap to the previous event in {0, 100ms, 1s, 2.9s, 3s-1ns, 3s, 3.1s, 6s}, or a link-state change (tear-down and re-initialisation) or a transient failure (ENOBUFS) of the next scheduled multicast transmission, each x gap {100ms, 1s, 3.1s, 6s}, injected into the real Advertiser with min=max=4s (periodic ticks at 0,4,8,... interleave) and min=max=60s (long quiet periods; quick: histories <=2) under the virtual clock in the canonical schedule; oracle on virtual WriteTo timestamps to ff02::1, per connection generation from its initial RA: consecutive >= 3s apart, every trigger (tick or :: solicitation) served within 3s, unicast answers conserved; states = histories executed, transitions = scheduler steps; non-trivial = history has >=1 event; distinct = distinct history"
 	r.Assumptions = []string{"canonical schedule per history (goroutine interleavings are C07/C08's subject)", "random delay draws at their default (0) answer"}
 	if r.Replay != nil {
 		var c c06Case
@@ -264,7 +297,21 @@ func TestVerifC06(t *testing.T) {
 	}
 	// Alphabet: (M|U) x 8 gaps, plus link-change re-initialisation x 4 gaps.
 	reinitGaps := []time.Duration{100 * time.Millisecond, time.Second, 3100 * time.Millisecond, 6 * time.Second}
-	n := len(c06Gaps)*2 + len(reinitGaps)
+	n := len(c06Gaps)*2 + 2*len(reinitGaps)
+	mkCase := func(seq []int, iv time.Duration) c06Case {
+		c := c06Case{Interval: iv}
+		for _, s := range seq {
+			switch {
+			case s >= len(c06Gaps)*2+len(reinitGaps):
+				c.Events = append(c.Events, c06Event{WriteErr: true, Gap: reinitGaps[s-len(c06Gaps)*2-len(reinitGaps)]})
+			case s >= len(c06Gaps)*2:
+				c.Events = append(c.Events, c06Event{Reinit: true, Gap: reinitGaps[s-len(c06Gaps)*2]})
+			default:
+				c.Events = append(c.Events, c06Event{Multicast: s%2 == 0, Gap: c06Gaps[s/2]})
+			}
+		}
+		return c
+	}
 	idx := 0
 	enum.Sequences(n, K, func(seq []int) bool {
 		idx++
@@ -275,23 +322,24 @@ func TestVerifC06(t *testing.T) {
 			r.Capped("wall-clock budget reached before all histories were run")
 			return false
 		}
-		var c c06Case
-		for _, s := range seq {
-			if s >= len(c06Gaps)*2 {
-				c.Events = append(c.Events, c06Event{Reinit: true, Gap: reinitGaps[s-len(c06Gaps)*2]})
+		// Two advertising intervals: 4s (periodic ticks interleave with everything) and
+		// 60s (long quiet periods between multicast RAs). Quick tier: the 60s variant
+		// for histories of up to 2 events only.
+		for _, iv := range []time.Duration{0, 60 * time.Second} {
+			if iv != 0 && !r.Thorough() && len(seq) > 2 {
 				continue
 			}
-			c.Events = append(c.Events, c06Event{Multicast: s%2 == 0, Gap: c06Gaps[s/2]})
-		}
-		x, _, vs := c06Run(t, c)
-		r.Case(c.String(), len(seq) > 0)
-		r.Count("states", 1)
-		r.Count("transitions", int64(x.Steps))
-		r.Count("traces_validated_against_impl", 1)
-		r.Outcome(fmt.Sprint(len(vs) == 0))
-		r.Sample(map[string]any{"history": c.String(), "steps": x.Steps})
-		for _, v := range vs {
-			r.Violation(v[0], "history "+c.String()+": "+v[1], c)
+			c := mkCase(seq, iv)
+			x, _, vs := c06Run(t, c)
+			r.Case(c.String(), len(seq) > 0)
+			r.Count("states", 1)
+			r.Count("transitions", int64(x.Steps))
+			r.Count("traces_validated_against_impl", 1)
+			r.Outcome(fmt.Sprint(len(vs) == 0))
+			r.Sample(map[string]any{"history": c.String(), "steps": x.Steps})
+			for _, v := range vs {
+				r.Violation(v[0], "history "+c.String()+": "+v[1], c)
+			}
 		}
 		return true
 	})
@@ -308,14 +356,7 @@ func TestVerifC06(t *testing.T) {
 			if !r.Mine(idx) || len(seq) == 0 {
 				return true
 			}
-			var c c06Case
-			for _, s := range seq {
-				if s >= len(c06Gaps)*2 {
-					c.Events = append(c.Events, c06Event{Reinit: true, Gap: reinitGaps[s-len(c06Gaps)*2]})
-					continue
-				}
-				c.Events = append(c.Events, c06Event{Multicast: s%2 == 0, Gap: c06Gaps[s/2]})
-			}
+			c := mkCase(seq, 0)
 			var a *advWorld
 			sc := c06Scenario(c, &a)
 			sc.Check = func(x *vsched.Exec) [][2]string { return c06Check(c, x, a) }
